@@ -4,8 +4,10 @@
 #![no_main]
 use libfuzzer_sys::fuzz_target;
 use std::sync::OnceLock;
+use vcheck::engine::{JobT, Property};
 
-static PROP: OnceLock<vcheck::engine::Property> = OnceLock::new();
+static PROP: OnceLock<Property> = OnceLock::new();
+static JOBS: OnceLock<Vec<&'static Box<dyn JobT>>> = OnceLock::new();
 
 fuzz_target!(|data: &[u8]| {
     let p = PROP.get_or_init(|| {
@@ -14,7 +16,8 @@ fuzz_target!(|data: &[u8]| {
         let id = std::env::var("VCHECK_FUZZ_PROP").unwrap_or_else(|_| "C04".to_string());
         vcheck::props::build(&id).expect("unknown property")
     });
-    if let Err(m) = vcheck::engine::fuzz_one(p, data) {
+    let js = JOBS.get_or_init(|| vcheck::engine::fuzz_jobs(PROP.get().unwrap()));
+    if let Err(m) = vcheck::engine::fuzz_one_of(p, js, data) {
         eprintln!("FUZZ-FAILURE {m}");
         std::process::abort();
     }
